@@ -41,8 +41,8 @@ CLASS_LISTS = [[], [4], [3, 4], [4, 4], [7], [1], [37], [31], [4, 7, 3], [7, 37]
 SUB_LISTS = [[], [0x40c], [0x40c, 0x40e], [0x401]]      # BSD subclasses only (the scope of the statement)
 
 
-def gen_dump(rnd, big=False, allow_zero_tid=True, residue_case=False):
-    w = World(rnd, big_tids=False, allow_zero_tid=allow_zero_tid)
+def gen_dump(rnd, big=False, allow_zero_tid=True, residue_case=False, world=None):
+    w = world or World(rnd, big_tids=False, allow_zero_tid=allow_zero_tid)
     g = gen.ProgGen(w, rnd, ntids=3, noise=0.02)
     pids = {1: 11, 2: 12, 3: rnd.choice([13, 0])}
     names = {11: 'alpha', 12: 'beta', 13: 'gamma', 14: 'delta', 0: 'kernel_task'}
@@ -141,6 +141,13 @@ def run(ctx):
             for flag in ('show_timestamp', 'show_name', 'show_func_qual', 'show_tid', 'show_process', 'show_args', 'color'):
                 setattr(p, flag, rnd.random() < 0.5)       # presentation options must not change WHAT is selected
             op = op0 if same_twice else rnd.choice(['traces', 'traces', 'traces', 'callstacks', 'kevents'])
+            if j and not same_twice and i % 3 == 1:
+                # the same parser object is pointed at ANOTHER dump: nothing of the first may leak into the listing
+                _, dump2 = gen_dump(rnd, world=w)      # same world: same thread-id mapping, settings keep their meaning
+                r, texts = request(w, p, dump2, op)
+                r['dump'] = dump2.abstract()
+                reqs.append(r)
+                continue
             r, texts = request(w, p, dump, op)
             reqs.append(r)
             if op == 'traces' and 'err' not in r:
